@@ -64,6 +64,25 @@ class TlcResult:
         self.prints = []
 
 
+def tlaps(module, timeout=600):
+    """Check the proofs of spec/<module>.tla with the TLA+ proof system (tlapm); returns the number of obligations proved.
+    A proof that no longer goes through is a defect of the machinery (ToolError), not a verdict about the code."""
+    import shutil
+    d = os.path.join(WORK, 'tlaps_' + module)
+    shutil.rmtree(d, ignore_errors=True)
+    os.makedirs(d, exist_ok=True)
+    shutil.copy(os.path.join(SPEC, module + '.tla'), d)
+    try:
+        p = subprocess.run(['tlapm', '--threads', '4', module + '.tla'], cwd=d, capture_output=True, text=True, timeout=timeout)
+    except subprocess.TimeoutExpired:
+        raise ToolError(f'tlapm {module}: timeout after {timeout}s')
+    out = p.stdout + p.stderr
+    m = re.search(r'All (\d+) obligations? proved', out)
+    if p.returncode != 0 or not m:
+        raise ToolError(f'tlapm {module}: proofs not accepted\n' + out[-1500:])
+    return int(m.group(1))
+
+
 CASE_RE = re.compile(r'^<<"([A-Z]+)", (".*")>>$')
 
 
